@@ -11,7 +11,9 @@ import (
 	"verif/harness/hx"
 )
 
-type runner func(module string, seed int64, tier string, d *hx.Driver) *hx.Result
+// a runner executes one property's K and D checks; when replay is non-empty it runs exactly those
+// op lines (a minimised failing case kept under replays/) instead of generating inputs.
+type runner func(module string, seed int64, tier string, d *hx.Driver, replay []string) *hx.Result
 
 var runners = map[string]runner{}
 
@@ -21,6 +23,7 @@ func main() {
 	tier := flag.String("tier", "quick", "quick|thorough")
 	driver := flag.String("driver", "", "path to the Lean driver executable")
 	out := flag.String("out", "", "result json path (default stdout)")
+	replayOp := flag.String("replay-op", "", "run exactly this op line instead of generating inputs")
 	flag.Parse()
 	run, ok := runners[*prop]
 	if !ok {
@@ -37,7 +40,11 @@ func main() {
 		}
 		defer d.Close()
 	}
-	res := run(moduleName, *seed, *tier, d)
+	var replay []string
+	if *replayOp != "" {
+		replay = []string{*replayOp}
+	}
+	res := run(moduleName, *seed, *tier, d, replay)
 	w := os.Stdout
 	if *out != "" {
 		f, err := os.Create(*out)
